@@ -205,8 +205,10 @@ def qHold (h : Hold) : Hold :=
 def qBpm (b : Bpm) : Bpm := { b with metronome := (pyTrunc b.metronome : Rat) }
 def qSample (s : Sample) : Sample := { s with offset := (pyTrunc s.offset : Rat) }
 
-/-- tags as they come back: joined with blanks, split at blanks, empty pieces dropped, trimmed -/
-def qTags (ts : List Str) : List Str := ((splitOn ' ' (joinWith ' ' ts)).filter (fun i => i ≠ [])).map strip
+/-- tags as they come back: joined with blanks, the line's trailing blanks gone, split at blanks, empty pieces
+dropped, trimmed -/
+def qTags (ts : List Str) : List Str :=
+  ((splitOn ' ' (rstrip (joinWith ' ' ts))).filter (fun i => i ≠ [])).map strip
 
 def qMeta (uni : Str → Str) (m : Meta) : Meta :=
   { m with audioFileName := strip m.audioFileName, previewTime := (pyTrunc m.previewTime : Rat),
